@@ -13,7 +13,8 @@ def _argparse_specs(ctx, f):
     parse_args."""
     specs = []
     for n in walk_no_nested(f.node):
-        if isinstance(n, ast.For) and isinstance(n.iter, ast.List) and \
+        if isinstance(n, ast.For) and isinstance(
+                n.iter, (ast.List, ast.Tuple)) and \
                 isinstance(n.target, ast.Tuple) and len(n.target.elts) == 2:
             try:
                 table = ctx.folder.fold(n.iter, f.module, None, {})
